@@ -32,13 +32,14 @@ THEOREMS = [
     'Uwg.C07.aggregate_spec', 'Uwg.C07.bem_exact', 'Uwg.C07.bem_fractions_sum',
     'Uwg.C07.refuse_or_all', 'Uwg.C07.refuse_or_all_wf', 'Uwg.C07.bem_progress',
     'Uwg.C07.split_stock_totals', 'Uwg.C07.split_stock_generate',
-    'Uwg.C07.custom_replaces', 'Uwg.C07.custom_extends', 'Uwg.C07.customize_keeps_slots',
+    'Uwg.C07.custom_replaces', 'Uwg.C07.custom_extends', 'Uwg.C07.custom_extends_again',
+    'Uwg.C07.customize_keeps_slots',
     'Uwg.C07.custom_replaces_extends',
     'Uwg.C07.zone_index_total', 'Uwg.C07.proxy_zone_table', 'Uwg.C07.accepted_no_value_error',
     'Uwg.C07.era_any_case', 'Uwg.C07.key_text_injective',
     'Uwg.C07.asis_type_case_dropped', 'Uwg.C07.asis_duplicates_collapse',
     'Uwg.C07.asis_unknown_type_empty', 'Uwg.C07.asis_custom_dropped_off_1A',
-    'Uwg.C07.fixed_witnesses', 'Uwg.C07.dup_custom_double_counts',
+    'Uwg.C07.fixed_witnesses', 'Uwg.C07.asis_dup_custom_double_counts',
 ]
 
 REF_BLDTYPE = ('fullservicerestaurant', 'hospital', 'largehotel', 'largeoffice', 'medoffice',
@@ -271,7 +272,9 @@ def gen_overrides(rng, dyadic=False, subset=None):
             ov[name] = None
         elif name == 'flrh':
             r = rng.random()
-            ov[name] = (F(0) if r < 0.04 else F(1) if r < 0.12 else
+            # 0 is rejected by the setter (tie S); the division path for 0 is still compared, with
+            # the setter bypassed (flag flrh0-bypass, no oracle)
+            ov[name] = (F(0) if r < 0.03 else F(1) if r < 0.12 else F(1, 64) if r < 0.16 else
                         rq(rng, 1, 6, 8) or F(3))
         else:
             r = rng.random()
@@ -420,7 +423,10 @@ def set_inputs(m, cs):
     m.bld = cs['bld']
     m.zone = cs['zone'].lower() if len(cs['bld']) % 2 else cs['zone']
     for k in OVS:
-        setattr(m, OV_ATTR[k], cs['ov'][k])
+        if k == 'flrh' and cs['ov'][k] == 0:
+            m._flr_h = cs['ov'][k]                 # not accepted by the setter: bypass
+        else:
+            setattr(m, OV_ATTR[k], cs['ov'][k])
     m.charlength, m.blddensity, m.bldheight = cs['cl'], cs['bd'], cs['bh']
 
 
@@ -538,7 +544,10 @@ def impl_generate(plain, rl, cs):
     m.zone = cs['zone']
     for k in OVS:
         v = cs['ov'][k]
-        setattr(m, OV_ATTR[k], None if v is None else float(v))
+        if k == 'flrh' and v == 0:
+            m._flr_h = 0.0                         # not accepted by the setter: bypass
+        else:
+            setattr(m, OV_ATTR[k], None if v is None else float(v))
     if cs['customs']:
         ref, sch = plain.UWG.load_refDOE()
         cb, csch = real_customs(ref, sch, cs['customs'], as_float=True)
@@ -560,7 +569,8 @@ def stock_keys(bld):
     return agg
 
 
-SKIP_FLAGS = {'era-broken', 'short-columns', 'dup-key', 'custom-out-of-range', 'dup-custom', 'nonref'}
+SKIP_FLAGS = {'era-broken', 'short-columns', 'dup-key', 'custom-out-of-range', 'nonref',
+              'flrh0-bypass'}
 
 
 def oracle_c07(cs, res):
@@ -571,8 +581,6 @@ def oracle_c07(cs, res):
     table = cs['table']
     missing = sorted(k for k in agg if k not in table)
     if res['err']:
-        if res['err'] == 'zerodiv' and cs['ov']['flrh'] == 0:
-            return None                       # floor height 0: fail-stop, reported as a note
         if missing and res['err'] == 'refuse':
             return None
         if missing:
@@ -720,6 +728,8 @@ class Session(object):
         self.notes = set()
 
     def judge(self, cs, res, exact=True):
+        if cs['ov']['flrh'] == 0:
+            cs['flags'] = set(cs['flags']) | {'flrh0-bypass'}
         if not res['err']:
             self.n07 += 1
             self.n08 += 1
@@ -733,17 +743,6 @@ class Session(object):
         m8 = oracle_c08(cs, res, exact)
         if m8:
             self.bad08.append((cs, m8))
-        if res['err'] == 'zerodiv':
-            self.notes.add('flr_h = 0 passes the flr_h setter (float_positive accepts 0) and '
-                           '_compute_BEM then raises ZeroDivisionError (fail-stop; mirrored by the '
-                           'model as Err.zerodiv, theorem flrh_zero_refused)')
-        if 'dup-custom' in cs['flags'] and not res['err']:
-            agg = stock_keys(cs['bld'])
-            if sum(e['frac'] for e in res['entries']) != sum(agg.values()):
-                self.notes.add('two custom BEMDefs with the same new type and era are both '
-                               'simulated at the full fraction (fractions then sum to more than '
-                               'one); excluded from the oracle as outside the input domain '
-                               '(hypothesis NewKeysNodup), mirrored exactly by the model')
 
     def tie_setters(self, cases):
         chk, kit = self.chk, self.kit
@@ -768,6 +767,13 @@ class Session(object):
                         ans = 'ok' if getattr(m, a) == v else 'err fatal'
                     except Exception as e:  # noqa: BLE001
                         ans = 'err ' + err_class(e)
+                    want = (v is None or (0 < v if kind == 'pos' else 0 <= v <= 1))
+                    if (ans == 'ok') != want and self.focus == 'C08':
+                        chk.violation('impl-violation', 'override setter %s' % a,
+                                      case={'attribute': a, 'value': str(v)}, observed=ans,
+                                      expected='accepted' if want else
+                                      'rejected with AssertionError (floor height must be > 0, '
+                                      'ratios within [0, 1])')
                     pairs.append(('setov kind=%s v=%s' % (kind, 'none' if v is None else frac_str(v)),
                                   ans))
         chk.correspond(
@@ -881,6 +887,7 @@ def corpus_cases(rl):
                 'cl': F(1000), 'bd': F(1, 2), 'bh': F(10), 'table': table, 'flags': flags,
                 'kinds': {'corpus'}}
     v = (F(1, 4), F(1, 2), F(1, 8), F(3, 8), F(0), F(3))
+    v2 = (F(3, 4), F(1, 8), F(5, 8), F(1, 2), F(1, 4), F(4))
     return [
         mk('1A', [('LargeOffice', 'pst80', F(3, 8)), ('midriseapartment', 'pst80', F(5, 8))]),
         mk('1A', [('largeoffice', 'pst80', F(1, 2)), ('largeoffice', 'PST80', F(1, 2))]),
@@ -891,6 +898,11 @@ def corpus_cases(rl):
         mk('7', [('customa', 'new', F(1, 2)), ('midriseapartment', 'pre80', F(1, 2))],
            customs=[('customa', 2, 1000, v), ('midriseapartment', 0, 1001, v)]),
         mk('1A', [('customa', 'new', F(1))], customs=[('customa', 2, 1000, v)]),
+        mk('4A', [('customa', 'pst80', F(1))],
+           customs=[('customa', 1, 1000, v), ('customa', 1, 1001, v2)]),
+        mk('5C', [('customa', 'pst80', F(1, 2)), ('customa', 'New', F(1, 4)), ('customb', 'new', F(1, 4))],
+           customs=[('customa', 1, 1000, v), ('customb', 2, 1001, v2), ('customa', 2, 1002, v),
+                    ('customa', 1, 1003, v2)]),
         mk('3B-CA', [('largeoffice', 'pst80', F(1))],
            ov={'glzr': F(0), 'shgc': F(0), 'albwall': F(0), 'albroof': F(0), 'vegroof': F(0)}),
         mk('8', [('smalloffice', 'new', F(1, 2)), ('stripmall', 'pre80', F(1, 2))],
@@ -1016,6 +1028,17 @@ def replay(chk, path, focus='C07'):
         diff = max(abs(a - b) for a, b in zip(*temps))
         if not diff <= 1e-9:
             msg = 'hourly canyon temperatures differ by up to %.3e K' % diff
+    elif 'attribute' in case:                            # an override setter
+        m = Kit().UWG(EPW)
+        v = None if case['value'] == 'None' else F(case['value'])
+        try:
+            setattr(m, case['attribute'], v)
+            ans = 'ok'
+        except Exception as e:  # noqa: BLE001
+            ans = 'err ' + err_class(e)
+        want = v is None or (0 < v if case['attribute'] == 'flr_h' else 0 <= v <= 1)
+        if (ans == 'ok') != want:
+            msg = 'setter %s answers %s for %s' % (case['attribute'], ans, v)
     elif 'spec' in case:
         rl = RealLib(plain)
         rl.spec['real'] = True
